@@ -49,8 +49,8 @@ def outside_targets(rn):
 
 def rel_path(rng, rn):
     """(url part below the mount point, template name)."""
-    t = rng.choices(['benign', 'sibling', 'absolute', 'prefixext', 'inner', 'special', 'soup'],
-                    weights=[12, 30, 12, 14, 10, 10, 12])[0]
+    t = rng.choices(['benign', 'sibling', 'absolute', 'prefixext', 'inner', 'special', 'soup', 'outback'],
+                    weights=[12, 30, 12, 14, 10, 10, 12, 5])[0]
     if t == 'benign':
         p = rng.choice(INSIDE)
     elif t == 'sibling':
@@ -92,6 +92,12 @@ def rel_path(rng, rn):
                         'sub/%2e%2e/f.txt', 'sub%2f..%2ff.txt', 'sub/deep/../g.txt', './f.txt', 'sub/./g.txt',
                         'sub//g.txt', 'a/../a/../f.txt', '../' + rn + '/f.txt', '..%2f' + rn + '%2ff.txt',
                         'sub/../../' + rn + '/sub/g.txt', '../' + rn, '../' + rn + '/'])
+    elif t == 'outback':
+        # leaves the root through an (existing or missing) outside directory and comes back in
+        out = rng.choice([rn + '-evil', rn + 'x', 'other', 'nonexistent', 'canary.txt', 'sess', 'sess/session-'])
+        ups = '/'.join(['..'] * len(out.split('/')))
+        back = rng.choice([rn + '/f.txt', rn + '/sub/g.txt', rn, rn + '/', rn + '-evil/secret.txt', 'canary.txt'])
+        p = rng.choice(UPS[:5]) + '/' + out + '/' + ups + '/' + back
     elif t == 'special':
         p = rng.choice(['%00', 'f.txt%00', 'f.txt%00.html', '\x00', 'a\x00b', 'A' * 300, 'sub/' + 'B' * 260 + '/../../..',
                         '~', '~root', '~/x', ' ', '%20', '%0d%0a', 'f.txt/', 'f.txt/.', '.', './', '..', '../', '%2e',
@@ -147,7 +153,8 @@ def static_case(rng):
 
 # ---- sessions -----------------------------------------------------------------------------------
 def session_id(rng, store):
-    t = rng.choices(['benign', 'escape', 'inside', 'special', 'lockish', 'soup'], weights=[10, 40, 18, 14, 6, 12])[0]
+    t = rng.choices(['benign', 'escape', 'inside', 'special', 'lockish', 'soup', 'outback'],
+                    weights=[10, 40, 18, 14, 6, 12, 6])[0]
     if t == 'benign':
         v = rng.choice(['real', 'real2', 'abc', 'nope', '0123456789abcdef0123456789abcdef01234567', 'a', 'A-b_c.d'])
     elif t == 'escape':
@@ -164,6 +171,12 @@ def session_id(rng, store):
         v = sep.join(parts)
         if sep != '/' and rng.random() < 0.5:
             v = v.replace(sep, '/', 1)
+    elif t == 'outback':
+        out = rng.choice([store + '-evil', store + 'x', 'other', 'nonexistent', 'canary.txt', 'root/sub'])
+        ups = '/'.join(['..'] * len(out.split('/')))
+        back = rng.choice([store + '/session-real', store + '/session-real2', store + '/session-new', store,
+                           store + '-evil/victim', 'canary.txt'])
+        v = rng.choice(['', 'a', 'nope']) + '/../../' + out + '/' + ups + '/' + back
     elif t == 'inside':
         v = rng.choice(['/../session-real', 'a/../session-real', '/inner', 'a/..', '/..', '/.', '/', 'a/', '',
                         '/../session-real.lock', '/../session-a/../session-real', 'a/../session-/inner', '/./inner',
